@@ -25,7 +25,16 @@ type simScenario struct {
 	Depth    int      `json:"depth"`
 	EstSteps int      `json:"est_steps"`
 	MaxSteps int      `json:"max_steps"`
+	LightDiv int      `json:"light_div"`
 	Dir      string   `json:"dir"`
+}
+
+func lightSeed(words []uint32) uint64 {
+	var h uint64 = 1469598103934665603
+	for _, w := range words {
+		h = (h ^ uint64(w)) * 1099511628211
+	}
+	return h
 }
 
 func TestVerifSim(t *testing.T) {
@@ -76,7 +85,7 @@ func TestVerifSim(t *testing.T) {
 		return int(w % uint32(n))
 	}
 	runtime.GOMAXPROCS(1)
-	res := verifhook.RunP(main, verifhook.PConfig{Strategy: sc.Strategy, Depth: sc.Depth, EstSteps: sc.EstSteps, MaxSteps: sc.MaxSteps})
+	res := verifhook.RunP(main, verifhook.PConfig{Strategy: sc.Strategy, Depth: sc.Depth, EstSteps: sc.EstSteps, MaxSteps: sc.MaxSteps, LightDiv: sc.LightDiv, LightSeed: lightSeed(sc.Words)})
 	out.Sync()
 	errf.Sync()
 	rb, _ := json.Marshal(res)
